@@ -215,7 +215,7 @@ def symtab(t):
 # ---------------------------------------------------------------------------------------------
 # canonical renaming of __ol_ temporaries
 
-_OL_RE = re.compile(r"__ol_(break|interrupt|it|for|while|key|value|assign|augobj|augass|sllice|retv|ret|nonlocal|classnsp|loader|mod|hook)_([a-z]{10}|[0-9][0-9_]*)(?![A-Za-z0-9_])")
+_OL_RE = re.compile(r"__ol_(break|interrupt|it|for|while|key|value|assign|augobj|augass|sllice|retv|ret|nonlocal|classnsp|loader|mod|hook|bases|kwds)_([a-z]{10}|[0-9][0-9_]*)(?![A-Za-z0-9_])")
 
 
 def canon_ol(text):
